@@ -5,6 +5,9 @@
        : the executable codecs of Spec/LzwSpec.v and Spec/Inflate.v against weezl and flate2 (the encoders' output for
          DATA, and the decoders' answers on the streams E: the spec's own, the crates', the Python references')
      | (case lzwenc ec limit xDATA) | (case zenc k xDATA) : generator queries, answered by the spec encoders only
+     | (case big stream ..) | (case big doc ..) | (case big zrtn DATA (encs xE...)) | (case big lzwrtn ec DATA (encs xE...))
+     | (case big echo DATA) : large, highly compressible data written as forms (rep / cat), results rendered run by run
+       (section "large, highly compressible data" below) | (case bigd ..) : the same on the implementation only
    The third-party oracles are instantiated by the table <orc> = (orc (tag xIN xOUT)...), tags f / l0 / l1 / z,
    which the generator fills with reference answers (Python zlib, reference LZW) or with flate2's / weezl's own
    answers (harness oracle mode).  A missing entry yields the bytes "ORACLE-MISS", which can never agree. *)
@@ -60,7 +63,15 @@ Definition res_sx {A} (f : A -> list sx) (r : res A) : sx :=
 Definition rbytes_sx (r : res bytes) : sx := res_sx (fun b => [sx_bytes b]) r.
 Definition st_sx (s : stream) : sx := obj_to_sx (OStream (s_dict s) (s_content s)).
 
-Definition run_stream (d : dict) (c : bytes) (tbl : orc) (newc : bytes) : sx :=
+(* [pb] prints a byte string (sx_bytes for the ordinary cases; the run-length form below for the large cases) *)
+Definition rbytes_sx_with (pb : bytes -> sx) (r : res bytes) : sx := res_sx (fun b => [pb b]) r.
+Definition st_sx_with (pb : bytes -> sx) (s : stream) : sx :=
+  match obj_to_sx (OStream (s_dict s) []) with
+  | SL [t; d; _] => SL [t; d; pb (s_content s)]
+  | x => x
+  end.
+
+Definition run_stream_with (pb : bytes -> sx) (d : dict) (c : bytes) (tbl : orc) (newc : bytes) : sx :=
   let s := {| s_dict := d; s_content := c |} in
   let inf := o_inflate tbl in
   let lz := o_lzw tbl in
@@ -68,15 +79,17 @@ Definition run_stream (d : dict) (c : bytes) (tbl : orc) (newc : bytes) : sx :=
   let cs := compress de s in
   SL [sx_id "stream";
       SL [sx_id "filters"; res_sx (map sx_bytes) (filters d)];
-      SL [sx_id "dec"; rbytes_sx (decompressed_content inf lz s)];
-      SL [sx_id "plain"; rbytes_sx (get_plain_content inf lz s)];
-      SL [sx_id "decompress"; res_sx (fun s' => [st_sx s']) (decompress inf lz s)];
+      SL [sx_id "dec"; rbytes_sx_with pb (decompressed_content inf lz s)];
+      SL [sx_id "plain"; rbytes_sx_with pb (get_plain_content inf lz s)];
+      SL [sx_id "decompress"; res_sx (fun s' => [st_sx_with pb s']) (decompress inf lz s)];
       SL [sx_id "compress"; match get_plain_content inf lz cs with
                             | Panic => sx_id "panic"       (* the harness decodes inside the same guarded call *)
-                            | r => SL [st_sx cs; rbytes_sx r]
+                            | r => SL [st_sx_with pb cs; rbytes_sx_with pb r]
                             end];
-      SL [sx_id "setc"; st_sx (set_content s newc)];
-      SL [sx_id "setp"; st_sx (set_plain_content s newc)]].
+      SL [sx_id "setc"; st_sx_with pb (set_content s newc)];
+      SL [sx_id "setp"; st_sx_with pb (set_plain_content s newc)]].
+
+Definition run_stream : dict -> bytes -> orc -> bytes -> sx := run_stream_with sx_bytes.
 
 Definition ftype_of_case (n : N) : option ftype := ftype_of_N n.
 
@@ -175,9 +188,186 @@ Definition run_codec (kind : bytes) (args : list sx) : sx :=
     end
   else sx_id "badcase".
 
+(* ---- large, highly compressible data: (case big <kind> ...) ----
+   Deflate reaches about 1000 : 1 on runs of equal bytes (blank scans, zero padding), LZW several hundred : 1.  Such data is
+   written compactly in the case and expanded here exactly as in the harness (c09.rs `expand`) and in the generator:
+     form ::= xHEX | (rep form n) -- n copies | (cat form ...) -- concatenation
+   and results longer than BIG_ATOM bytes are printed run by run: (rl LENGTH item ...), item = xHEX literal bytes |
+   (xPATTERN total) a stretch of period |PATTERN|; an exact, compact rendering (no checksum).  Everything below is tail recursive on the data: the extracted runner has an 8 MB stack. *)
+Definition rep_bytes (pat : bytes) (n : N) : bytes :=
+  let rp := rev_append pat [] in N.iter n (fun acc => rev_append rp acc) [].
+
+Fixpoint bytes_form (x : sx) : option bytes :=
+  match x with
+  | SA _ => as_bytes x
+  | SL (SA t :: args) =>
+    if bytes_eqb t (bs "rep") then
+      match args with
+      | [p; n] => match bytes_form p, as_N n with Some p, Some n => Some (rep_bytes p n) | _, _ => None end
+      | _ => None
+      end
+    else if bytes_eqb t (bs "cat") then
+      (fix go (l : list sx) (acc : bytes) : option bytes :=
+         match l with
+         | [] => Some (rev_append acc [])
+         | y :: l' => match bytes_form y with Some b => go l' (rev_append b acc) | None => None end
+         end) args []
+    else None
+  | _ => None
+  end.
+
+Definition lenN (s : bytes) : N := fold_left (fun n _ => N.succ n) s 0%N.
+
+(* the run-by-run rendering: at a position where, for the first lag p of LAGS, the bytes repeat with period p over at
+   least MINSEG bytes (s[j] = s[j-p] for as long as it holds), the item (xPATTERN total) -- PATTERN = the first p bytes,
+   total = the length of the stretch -- and the stretch is skipped; other bytes are collected into literal items xHEX.
+   A constant run is lag 1, one colour of 3 / 4 / 6 / 8 bytes a pixel the lag of that size. *)
+Definition LAGS : list nat := [1; 2; 3; 4; 6; 8]%nat.
+Definition MINSEG : N := 64.
+
+Fixpoint lag_run (a b : bytes) (n : N) : N :=
+  match a, b with
+  | x :: a', y :: b' => if byte_eqb x y then lag_run a' b' (N.succ n) else n
+  | _, _ => n
+  end.
+
+Fixpoint find_lag (s : bytes) (ps : list nat) : option (nat * N) :=
+  match ps with
+  | [] => None
+  | p :: ps' =>
+    let total := (N.of_nat p + lag_run (skipn p s) s 0)%N in
+    if (MINSEG <=? total)%N then Some (p, total) else find_lag s ps'
+  end.
+
+Definition flush_lit (lit : bytes) (acc : list sx) : list sx :=
+  match lit with [] => acc | _ => sx_bytes (rev_append lit []) :: acc end.
+
+(* [skip] bytes still belong to the stretch found last; [lit] reversed literal under construction; [acc] reversed items *)
+Fixpoint rle_go (s : bytes) (skip : N) (lit : bytes) (acc : list sx) : list sx :=
+  match s with
+  | [] => rev_append (flush_lit lit acc) []
+  | b :: s' =>
+    if (0 <? skip)%N then rle_go s' (N.pred skip) lit acc
+    else match find_lag s LAGS with
+         | Some (p, total) => rle_go s' (N.pred total) [] (SL [sx_bytes (firstn p s); sx_N total] :: flush_lit lit acc)
+         | None => rle_go s' 0%N (b :: lit) acc
+         end
+  end.
+
+Definition rle_sx (s : bytes) : sx := SL (sx_id "rl" :: sx_N (lenN s) :: rle_go s 0%N [] []).
+
+Definition BIG_ATOM : N := 16384.
+Definition big_bytes_sx (s : bytes) : sx := if (BIG_ATOM <? lenN s)%N then rle_sx s else sx_bytes s.
+
+Definition orc_of_sx_big (x : sx) : option orc :=
+  match x with
+  | SL (_ :: es) =>
+    omap (fun e => match e with
+                   | SL [SA t; i; o] => match bytes_form i, bytes_form o with
+                                        | Some i, Some o => Some (t, i, o)
+                                        | _, _ => None
+                                        end
+                   | _ => None
+                   end) es
+  | _ => None
+  end.
+
+(* an object whose stream content may be a form *)
+Definition obj_of_sx_big (x : sx) : option obj :=
+  match x with
+  | SL [SA t; dx; cx] =>
+    if bytes_eqb t (bs "st") then
+      match dict_of_sx dx, bytes_form cx with Some d, Some c => Some (OStream d c) | _, _ => None end
+    else obj_of_sx x
+  | _ => obj_of_sx x
+  end.
+
+Definition objmap_of_sx_big (l : list sx) : option objmap :=
+  fold_left (fun acc x =>
+    match acc, x with
+    | Some m, SL [id; o] => match oid_of_sx id, obj_of_sx_big o with
+                           | Some id, Some o => Some (insert m id o) | _, _ => None end
+    | _, _ => None
+    end) l (Some []).
+
+Definition obj_sx_big (o : obj) : sx :=
+  match o with
+  | OStream d c => st_sx_with big_bytes_sx {| s_dict := d; s_content := c |}
+  | _ => obj_to_sx o
+  end.
+
+(* doc_to_sx with big_bytes_sx for the stream contents; [mk] is the sx the document came from (version, mark, trailer, max id echoed) *)
+Definition doc_sx_big (hd : list sx) (mx : sx) (m : objmap) : sx :=
+  SL (sx_id "doc" :: hd ++ [SL (sx_id "objs" :: map (fun io => SL [oid_to_sx (fst io); obj_sx_big (snd io)]) m); mx]).
+
+Definition obytes_sx_big (r : option bytes) : sx :=
+  match r with Some b => SL [sx_id "ok"; big_bytes_sx b] | None => sx_id "err" end.
+
+Definition run_big (kind : bytes) (args : list sx) : sx :=
+  if bytes_eqb kind (bs "stream") then
+    match args with
+    | SL [SA t; dx; cx] :: ox :: _ :: nx :: _ =>
+      match dict_of_sx dx, bytes_form cx, orc_of_sx_big ox, as_bytes nx with
+      | Some d, Some c, Some tbl, Some newc =>
+        if bytes_eqb t (bs "st") then run_stream_with big_bytes_sx d c tbl newc else sx_id "badcase"
+      | _, _, _, _ => sx_id "badcase"
+      end
+    | _ => sx_id "badcase"
+    end
+  else if bytes_eqb kind (bs "doc") then
+    match args with
+    | SL [tag; v; bm; tr; SL (_ :: os); mx] :: ncx :: ox :: _ =>
+      match objmap_of_sx_big os, orc_of_sx_big ox with
+      | Some m0, Some tbl =>
+        let m1 := doc_compress (o_deflate tbl) (nocomp_of_sx ncx) m0 in
+        SL [sx_id "doc2"; doc_sx_big [v; bm; tr] mx m1;
+            match doc_decompress (o_inflate tbl) (o_lzw tbl) m1 with
+            | Ok m2 => doc_sx_big [v; bm; tr] mx m2
+            | Err e => err_sx e | Panic => sx_id "panic" | Fuel => sx_id "fuel"
+            end]
+      | _, _ => sx_id "badcase"
+      end
+    | _ => sx_id "badcase"
+    end
+  else if bytes_eqb kind (bs "echo") then
+    match args with
+    | [fx] => match bytes_form fx with Some b => SL [sx_id "echo"; rle_sx b] | None => sx_id "badcase" end
+    | _ => sx_id "badcase"
+    end
+  else if bytes_eqb kind (bs "zrtn") then
+    (* the Gallina inflate itself on streams of a very high ratio (no stored-block encoder part) *)
+    match args with
+    | [_; encs] =>
+      match encs_of_sx encs with
+      | Some es => SL (sx_id "zrtn" :: map (fun x => obytes_sx_big (Inflate.inflate x)) es)
+      | None => sx_id "badcase"
+      end
+    | _ => sx_id "badcase"
+    end
+  else if bytes_eqb kind (bs "lzwrtn") then
+    match args with
+    | [ex; _; encs] =>
+      match as_N ex, encs_of_sx encs with
+      | Some e, Some es => SL (sx_id "lzwrtn" :: map (fun x => obytes_sx_big (LzwSpec.lzw_decode (negb (e =? 0)%N) x)) es)
+      | _, _ => sx_id "badcase"
+      end
+    | _ => sx_id "badcase"
+    end
+  else sx_id "badcase".
+
 Definition run (x : sx) : sx :=
   match x with
   | SL (_ :: SA kind :: args) =>
+    if bytes_eqb kind (bs "big") then
+      match args with
+      | SA k2 :: args2 => SL [sx_id "big"; run_big k2 args2]
+      | _ => sx_id "badcase"
+      end
+    else if bytes_eqb kind (bs "bigd") then
+      (* a large case the generator chose to run on the implementation only (ordinary page geometries: the model's frame_go
+         measures the remaining data once a row, minutes for a megabyte); its direct verdict decides, nothing is compared *)
+      sx_id "model-skipped"
+    else
     if bytes_eqb kind (bs "stream") then
       match args with
       | stx :: ox :: _ :: nx :: _ =>
